@@ -303,3 +303,16 @@ def run(ctx):
             else:
                 ctx.bad('C07.4-exclusive-writer', inst, 'the connection mutex guard is not held across the awaited send (held=%s, receiver-from-guard=%s): frames of concurrent senders may interleave' % (held, from_guard),
                         ctx.where(Bn, sb), key='LOCK:%s:%s' % (Bn.path, callee_names(st)[0].rsplit('::', 1)[1]))
+
+    # ---------------- dependencies outside connection.rs -----------------------------------------------------------------
+    # (a) "connected" must mean "the peer proved it knows the cookie": the state gate above is only as good as the place that sets Connected
+    ctx.rule('C07.1-connected-means-verified', 'the Connected state that opens the send operations is entered only after the peer\'s digest was verified (rules C04.2-* re-run here): '
+             'otherwise the gate lets frames out to a peer whose handshake never completed', floor=3)
+    from ..order import SubCtx
+    from . import c04
+    c04.run(SubCtx(ctx, 'C07.1-connected-means-verified', 'handshake', allow=('C04.2-',)))
+    # (b) with distribution headers the frame is written by erltf's header encoder: layout and LongAtoms bit as the format prescribes
+    ctx.rule('C07.3-dist-header-frame', 'in distribution-header mode the frame body is produced by encode_with_dist_header_multi: header layout and the position of the LongAtoms flag follow the format '
+             '(rules C14.1 / C14.2 re-run here)', floor=5)
+    from . import c14
+    c14.header_rules(SubCtx(ctx, 'C07.3-dist-header-frame', 'header'))
